@@ -18,9 +18,9 @@ RULE = ('random finite MPS (L 2-6, all site kinds and conserve options, random s
 ASSUMPTIONS = ['single-site operator matrices of the Site objects are taken as data (their correctness is C12)',
                'the MPS denotes the dense state (C07)']
 ANCHORS = {'tenpy/networks/mps.py': ['*']}
-REQUIRED_COUNTERS = {'fn.expectation_value': 20, 'fn.correlation_function': 20, 'fn.expectation_value_term': 20,
+REQUIRED_COUNTERS = {'fn.expectation_value': 20, 'fn.correlation_function': 20, 'fn.expectation_value_term': 10,
                      'fn.term_correlation_function': 10, 'fn.expectation_value_terms_sum': 10, 'fn.overlap': 10,
-                     'fn.sample_measurements': 20, 'fn.sample_measurements_ops': 10, 'fn.term_list_correlation_function': 10, 'fn.get_rho_segment': 10, 'fn.charge_statistics': 10, 'fn.env': 10,
+                     'fn.sample_measurements': 10, 'fn.sample_measurements_ops': 10, 'fn.term_list_correlation_function': 10, 'fn.get_rho_segment': 10, 'fn.charge_statistics': 10, 'fn.env': 10,
                      'fermionic.cases': 20}
 FUNCS = ['expectation_value', 'expectation_value_multi', 'correlation_function', 'correlation_function', 'correlation_jw_mixed',
          'expectation_value_term', 'term_correlation_function', 'term_list_correlation_function', 'term_list_correlation_function',
